@@ -10,8 +10,8 @@ Specification: `ElaVerif/Model/OrdMap.lean` (sorted association lists with
 All theorems quantify over every tree, key, value and *every priority*, so they
 hold for whatever `rand.Int()` returns.  The binary-search-tree order is the
 only invariant the ordered-map behaviour needs; the heap order on priorities
-only matters for balance, and `C19_delete_heap_false` shows the Go `Delete`
-does not maintain it.
+only matters for balance; `C19_put_heap` / `C19_delete_heap` show both updates
+maintain it (Delete only since the fix recorded at `C19_delete_heap`).
 -/
 namespace ElaVerif.C19
 open ElaVerif.Treap Tree
@@ -196,17 +196,17 @@ theorem C19_persistent (vers : Array Treap) (i j : Nat) (hj : j < vers.size) (op
 theorem C19_put_heap (t : Tree) (k v : Bytes) (p : Int) (h : Heap t) : Heap (put t k v p) :=
   (putAux_heap t k v p h).1
 
-/-- Full-strength statement "Delete keeps the heap order" is FALSE of the code:
-    the rotate-down loop lifts the child with the *larger* priority
-    (`left.priority >= right.priority`).  Witness: root priority 0 with children
-    of priority 5 and 3.  Only balance is affected, not the ordered-map behaviour
-    (`C19_delete` needs no heap hypothesis). -/
-theorem C19_delete_heap_false :
-    ¬ (∀ (t : Tree) (k : Bytes), BST t → Heap t → Heap (delete t k)) := by
-  intro h
-  have := h (node (node nil [1] [] 5 nil) [2] [] 0 (node nil [3] [] 3 nil)) [2] (by decide)
-    (by simp [Heap, AllGe])
-  simp [delete, merge, Heap, AllGe] at this
+/-- `Delete` keeps the min-heap order on priorities (since /repo commit "fix: treap Delete rotates
+    the child with the lower priority up"; before it the rotate-down loop lifted the child with the
+    LARGER priority and this statement was false — witness: root priority 0 with children of
+    priority 5 and 3, `corpus/C19/delete_breaks_heap.ops`).  Together with `C19_put_heap`: every
+    treap reachable from the empty one by puts and deletes is a heap on the drawn priorities, which
+    is what the expected logarithmic depth of a treap rests on. -/
+theorem C19_delete_heap (t : Tree) (k : Bytes) (h : Heap t) : Heap (delete t k) :=
+  heap_delete t k h
+
+example : Heap (delete (node (node nil [1] [] 5 nil) [2] [] 0 (node nil [3] [] 3 nil)) [2]) := by
+  simp [delete, merge, Heap, AllGe]
 
 /-! ## iterators: navigation = list navigation -/
 
